@@ -176,9 +176,9 @@ struct WireEngine : Engine {
         }
         // every class directly: suffixes of the frames (so that inner-layer bytes meet the class that parses them, and every other class too), whole and
         // cut short, in heap blocks of exactly that size; outcome as for the capture path: a packet (then inspected) or malformed_packet, nothing else
-        for (size_t i = 0; i < frames.size(); ++i) { const Bytes& f = frames[i]; uint64_t hsh = fnv1a(f.data(), f.size()) ^ p.seed; if ((hsh & 7) != 0 || f.empty()) continue;
+        for (size_t i = 0; i < frames.size(); ++i) { const Bytes& f = frames[i]; uint64_t hsh = fnv1a(f.data(), f.size()) ^ p.seed; if ((hsh & 63) != 0 || f.empty()) continue;
             static const size_t offs[16] = { 0, 4, 8, 14, 16, 18, 22, 24, 26, 32, 34, 38, 42, 54, 62, 74 };
-            for (int oi = 0; oi < 3; ++oi) { size_t off = offs[(hsh >> (8 + 4 * oi)) & 15]; if (off > f.size()) off = 0; size_t full = f.size() - off;
+            for (int oi = 0; oi < 2; ++oi) { size_t off = offs[(hsh >> (8 + 4 * oi)) & 15]; if (off > f.size()) off = 0; size_t full = f.size() - off;
                 for (int cut = 0; cut < 2; ++cut) { size_t n = cut ? (full ? (size_t)((hsh >> 24) % full) : 0) : full; uint8_t* buf = (uint8_t*)malloc(n ? n : 1); if (n) memcpy(buf, f.data() + off, n); const uint8_t* view = n ? buf : buf + 1;
                     for (size_t ci = 0; ci < WIRE_NCLASS; ++ci) { st.inc("chk.direct_class_construction");
                         try { int64_t live0 = ledger::live; { ledger::Scope sc; std::unique_ptr<PDU> q(construct_class(ci, view, (uint32_t)n)); if (q) { inspect::Counters c3; inspect::packet(*q, c3); } }
